@@ -321,16 +321,27 @@ Definition cont_celldim (c : gcont) : nat :=
 (* NetCDFRead._parse_geometry called for every data variable with a geometry attribute, in order.
    State: (containers held in read_vars["geometries"], read_vars["variable_geometry"] as an
    association list parent -> container, most recent first).
-   - container already parsed: record that this parent has it, and return
-     ([record_again] = false is the seeded variant that returns without recording);
+   - container already parsed: if its cell dimension is a dimension of this parent ([d_dims]: the
+     netCDF dimensions of the variable and, for a domain variable, those named by its `dimensions`
+     attribute - /repo f336e6e, bf35377) record that this parent has it; otherwise report
+     "Geometry variable spans incorrect dimensions" and leave the parent without geometry.
+     ([record_again] = false is the seeded variant of round 3 that returns without recording;
+      [check_again] = false is the branch as it was before f336e6e: no dimension check.)
    - otherwise check it (attributes, and that the cell dimension is a dimension of the parent);
      a container that fails is forgotten, so that it is checked again for the next parent. *)
-Definition parse_step_gen (record_again : bool) (conts : list gcont)
+Definition parse_step_full (record_again check_again : bool) (conts : list gcont)
            (st : list nat * list (nat * nat)) (pv : nat * dvar) : list nat * list (nat * nat) :=
   let '(parsed, vg) := st in
   let '(p, d) := pv in
   let gid := d_gid d in
-  if mem gid parsed then (parsed, if record_again then (p, gid) :: vg else vg)
+  if mem gid parsed then
+    match nth_error conts gid with
+    | None => st
+    | Some c =>
+        if negb check_again || mem (cont_celldim c) (d_dims d)
+        then (parsed, if record_again then (p, gid) :: vg else vg)
+        else st
+    end
   else match nth_error conts gid with
        | None => st
        | Some c =>
@@ -339,9 +350,13 @@ Definition parse_step_gen (record_again : bool) (conts : list gcont)
            else st
        end.
 
-Definition parse_all_gen (record_again : bool) (conts : list gcont) (dvs : list dvar)
+Definition parse_step_gen (record_again : bool) := parse_step_full record_again true.
+
+Definition parse_all_full (record_again check_again : bool) (conts : list gcont) (dvs : list dvar)
   : list nat * list (nat * nat) :=
-  fold_left (parse_step_gen record_again conts) (combine (seq 0 (length dvs)) dvs) ([], []).
+  fold_left (parse_step_full record_again check_again conts) (combine (seq 0 (length dvs)) dvs) ([], []).
+
+Definition parse_all_gen (record_again : bool) := parse_all_full record_again true.
 
 Definition lookup_geometry (p : nat) (vg : list (nat * nat)) : option nat :=
   option_map snd (find (fun e => Nat.eqb (fst e) p) vg).
@@ -410,12 +425,14 @@ Definition var_cells_gen (own_counts ring_fixed : bool) (conts : list gcont) (pa
   end.
 
 (* Reading the dataset: every data variable in turn.  A variable recorded with a container whose
-   cell dimension it does not span makes the read raise ValueError ("Geometry dimension ... is not
-   in read_vars['ncdim_to_axis']") - possible only through the already-parsed branch, which does
-   not look at the dimensions of the new parent. *)
-Definition read_dataset_gen (record_again own_counts ring_fixed : bool) (conts : list gcont) (dvs : list dvar)
+   cell dimension it does not span would make the read raise ValueError ("Geometry dimension ...
+   is not in read_vars['ncdim_to_axis']", _create_field_or_domain).  Since f336e6e no variable is
+   recorded that way (Lemmas.read_dataset_total: the result is always Ok); before, the
+   already-parsed branch did record it (Refuted.C14_old_unchecked_parent_refuted). *)
+Definition read_dataset_full (record_again check_again own_counts ring_fixed : bool)
+           (conts : list gcont) (dvs : list dvar)
   : result (list (option (list arr3 * option arr2))) :=
-  let '(parsed, vg) := parse_all_gen record_again conts dvs in
+  let '(parsed, vg) := parse_all_full record_again check_again conts dvs in
   let bad := existsb (fun pv : nat * dvar =>
                let '(p, d) := pv in
                match lookup_geometry p vg with
@@ -428,6 +445,7 @@ Definition read_dataset_gen (record_again own_counts ring_fixed : bool) (conts :
                          | Some gid => var_cells_gen own_counts ring_fixed conts parsed gid
                          | None => None end) (seq 0 (length dvs))).
 
+Definition read_dataset_gen (record_again : bool) := read_dataset_full record_again true.
 Definition read_dataset := read_dataset_gen true true true.
 
 (* ------------------------------------------------------------------------- *)
